@@ -137,3 +137,19 @@ Theorem C04_relative_passes_have_shape : forall (P T : Type) seg (next : P -> pa
     (s : fstate P T) (first : pass P T),
   rel_shape (map (vn P T) (first :: rel_passes seg next 3 (one_pass seg s first))) = true.
 Proof. exact relative_passes_have_shape. Qed.
+
+(* non-vacuity: a concrete relative fit over three points of a five-sample
+   curve -- all four passes done; stopped after a refused second pass; and the
+   hypotheses of C04_unrepaired_loop_raised met by an unfitted curve *)
+Example C04_relative_inhabited :
+  let seg := [true; true; true; false; false] in
+  let o n := mkO n n [n; n; n] [n; n; n] n n in
+  let fresh : fstate nat nat := mkF (blank seg) (blank seg) false None None None None in
+  let all_done (n : nat) := mkP 2 10 (o (S n)) in
+  let then_refused (n : nat) := mkP 2 3 (o (S n)) in
+  relative_fit seg all_done fresh (mkP 2 10 (o 1%nat)) = Some (stored nat nat seg (all_done 3%nat)) /\
+  relative_fit seg then_refused fresh (mkP 2 10 (o 1%nat)) = Some (nothing nat nat seg) /\
+  length (rel_passes seg then_refused 3 (one_pass seg fresh (mkP 2 10 (o 1%nat)))) = 1%nat /\
+  relative_fit_old seg all_done fresh (mkP 2 3 (o 1%nat)) = None /\
+  relative_fit seg all_done fresh (mkP 2 3 (o 1%nat)) = Some (nothing nat nat seg).
+Proof. repeat split; reflexivity. Qed.
